@@ -88,7 +88,11 @@ type cbox struct {
 	crashRec  *boxCrashRec
 	touches   map[string]int // user-driven changes per service (create, delete, anything but status/annotation written by the controller)
 	faultPlan []int
+	faultRand *vfRand // when set: every status write fails with probability 1/6 (at most faultBudget times), before or after being applied
+	faultBudget int
 	faultsInjected int
+	notified  map[string][4]int64 // pool -> counters read at the moment of its last change notification
+	lastFailed string // service whose status write failed last (cleared by its next successful write)
 	writes    []boxWrite
 	memLog    []boxWrite // every change of a service's addresses in the allocator memory
 	epoch     int
@@ -170,7 +174,15 @@ func (cb *cbox) drain(k *boxKernel) {
 }
 
 func (cb *cbox) boot(k *boxKernel) {
+	cb.notified = map[string][4]int64{}
 	cb.ctl = &controller{ips: allocator.New(func(name string) {
+		// what a status fetcher running concurrently would read right at the notification (it runs on
+		// its own goroutine, outside the handlers' lock): no later notification may be needed to see
+		// the final values
+		if cb.ctl != nil && cb.ctl.ips != nil {
+			ctr := cb.ctl.ips.CountersForPool(name)
+			cb.notified[name] = [4]int64{ctr.AssignedIPv4, ctr.AssignedIPv6, ctr.AvailableIPv4, ctr.AvailableIPv6}
+		}
 		// poolStatusChan -> source.Channel -> PoolStatusReconciler queue
 		k.Enqueue("poolstatus", ctrl.Request{NamespacedName: types.NamespacedName{Namespace: "metallb-system", Name: name}})
 	})}
@@ -257,10 +269,14 @@ func (s *cboxSvcClient) UpdateStatus(svc *v1.Service) error {
 	if len(cb.faultPlan) > 0 {
 		outcome = cb.faultPlan[0]
 		cb.faultPlan = cb.faultPlan[1:]
+	} else if cb.faultRand != nil && cb.faultBudget > 0 && cb.faultRand.Chance(1, 6) {
+		cb.faultBudget--
+		outcome = vfPick(cb.faultRand, []int{boxFaultBefore, boxFaultBefore, boxFaultAfter})
 	}
 	key := svc.Namespace + "/" + svc.Name
 	if outcome == boxFaultBefore {
 		cb.faultsInjected++
+		cb.lastFailed = key
 		cb.c.Logf("   UpdateStatus(%s) fails before apply (injected)", key)
 		return errors.New("injected: status write failed")
 	}
@@ -288,8 +304,12 @@ func (s *cboxSvcClient) UpdateStatus(svc *v1.Service) error {
 	cb.c.Logf("   UpdateStatus(%s) ips=%v pool=%q", key, w.IPs, w.Pool)
 	cb.c.Count("status-writes")
 	cb.k.CrashPoint("after-status-write")
+	if cb.lastFailed == key {
+		cb.lastFailed = ""
+	}
 	if outcome == boxFaultAfter {
 		cb.faultsInjected++
+		cb.lastFailed = key
 		cb.c.Logf("   UpdateStatus(%s) applied but reported as failed (injected)", key)
 		return errors.New("injected: status write applied, response lost")
 	}
